@@ -724,7 +724,7 @@ Proof.
 Qed.
 
 (* the walk keeps "every segment is a fixed point of the percent-encoding engine" *)
-Lemma rds_walk_fixed rel host abs rest : forall kept,
+Lemma rds_walk_pct_fixed rel host abs rest : forall kept,
   Forall (fun s => fix_pct s = s) kept -> Forall (fun s => fix_pct s = s) rest ->
   Forall (fun s => fix_pct s = s) (rds_walk rel host abs kept rest).
 Proof.
@@ -755,7 +755,7 @@ Proof.
   assert (Forall (fun s => fix_pct s = s) (map fix_pct segs)) as Hf.
   { apply Forall_forall. intros x Hx. apply in_map_iff in Hx. destruct Hx as [s [Hs' Hin]]. subst x.
     apply fix_pct_idem. rewrite forallb_forall in Hps. auto. }
-  destruct (map fix_pct segs) as [|s0 sl]; [constructor|]. apply rds_walk_fixed; [constructor|exact Hf].
+  destruct (map fix_pct segs) as [|s0 sl]; [constructor|]. apply rds_walk_pct_fixed; [constructor|exact Hf].
 Qed.
 
 Lemma map_fixed l : Forall (fun s => fix_pct s = s) l -> map fix_pct l = l.
